@@ -79,13 +79,17 @@ def run(ctx: vlib.Ctx):
     ctx.trusted += ["tools/kernels/k45b_namedtuple_pack.py (translator of the display pack_named_tuple returns; validated each run against generated encoder source)"]
     ctx.theorems("props/C02_typevar.vo", ["C02_optional_code_is_model", "C02_typevar_code_is_model", "C02_typevar_pack_ref"], kernels=["K45c"])
     ctx.trusted += ["tools/kernels/k45c_optional_typevar.py (head of pack_special_typing_primitive + expr_or_maybe_none: exact-shape check, tests abstracted to booleans)"]
-    ctx.coqchk(["VerifProps.C02_pack", "VerifProps.C02_collection_kernel", "VerifProps.C02_ntdict", "VerifProps.C02_typed_kernel", "VerifProps.C02_ntdict_kernel", "VerifProps.C02_typevar"])
+    ctx.theorems("props/C02_union.vo", ["C02_union_passthrough_as_is", "C02_union_passthrough_order_free", "C02_union_converting_in_declared_order"], kernels=["K21"])
+    ctx.theorems("props/C02_cache.vo", ["C02_packer_cache_per_format", "C02_packer_cache_not_unpacker_cache"], kernels=["K13C"])
+    ctx.trusted += ["tools/kernels/k21_pack_union_emit.py (C11's translator of the two loops of pack_union; members abstracted to class name / expression / behaviour) and "
+                    "tools/kernels/k13c_codec_plan.py (reads the cache attribute names off builder.py, fails closed when they do not contain self.format_name)"]
+    ctx.coqchk(["VerifProps.C02_union", "VerifProps.C02_cache", "VerifProps.C02_pack", "VerifProps.C02_collection_kernel", "VerifProps.C02_ntdict", "VerifProps.C02_typed_kernel", "VerifProps.C02_ntdict_kernel", "VerifProps.C02_typevar"])
     ctx.trusted += ["tools/kernels/k15_collection_exprs.py (translator of _make_sequence_expression/_make_mapping_expression; "
                     "recognised tests and returned templates are listed explicitly, anything else fails closed)"]
     ctx.trusted += ["TyModel.v (cp/pk: hand-written model of pack.py registry order, copy-vs-comprehension and could_be_none decisions) "
                     "tied by vm_compute correspondence; stdlib renderings (isoformat, str, total_seconds, encodebytes, Enum.value) are oracle tables"]
     ctx.assumptions += ["format dialect part (orjson/msgpack/TOML native types, TOML null dropping) and unions (and enum-member / bytes literals) "
-                        "are decided by the reference-interpreter oracle only (outside the Coq grammar); NamedTuple (as_list form), TypedDict "
+                        "are decided by the reference-interpreter oracle only (outside the Coq grammar) -- except: the form of a union value of a pass-through member's class (the value itself, at any declared position) and the declared-order rule for the converting members are theorems about the translated loops of pack_union (K21), and the per-format cache of call-time-dialect packers is a theorem about the attribute names read off builder.py (K13C); NamedTuple (as_list form), TypedDict "
                         "(required keys, then the optional keys present) tuples with an unpacked segment (index/slice plan = kernel K7) and the abstract / special collection classes (Sequence, Mapping, Deque, OrderedDict, DefaultDict, MappingProxyType, Counter, ChainMap) and Literal types of int/str/bool/None constants are inside the Coq grammar; the as_dict form of a NamedTuple class at the top of a codec is modelled in TyNtDict.v (C02_ntdict_pack_ref / _basic + correspondence); as_dict NamedTuples at nested positions under the global option and generic NamedTuples/TypedDicts are oracle only"]
 
     cases, bad, log = tycorr.run(ctx, "c02_ty", ctx.budget(40, 300), 3, depth=3, foreign=1)
@@ -206,6 +210,10 @@ def run(ctx: vlib.Ctx):
     from harness.props import c01 as _c01
     _c01.tv_part(ctx, "c02_tv", "enc", ctx.budget(40, 300))
     toml_merge_part(ctx)
+    # round-7 parts (own random streams): converting-before-pass-through unions, same-named classes of different modules in one
+    # codec shape, sequences of entry points under a call-time dialect
+    from harness.props import c02_r7
+    c02_r7.run_all(ctx)
 
 
 FORMAT_MIXINS = {"orjson": ("DataClassORJSONMixin", "to_jsonb"), "msgpack": ("DataClassMessagePackMixin", "to_msgpack"),
@@ -294,6 +302,10 @@ def toml_merge_part(ctx):
 
 
 def replay(rep: dict) -> int:
+    from harness.props import c02_r7
+    r7 = c02_r7.replay(rep)
+    if r7 is not None:
+        return r7
     if rep.get("entry") == "toml_codec_merge":
         ns = gen.build_module(rep["source"])
         obs = _toml_merge_obs(ns, rep["dialect"], rep["input_src"])
